@@ -163,6 +163,21 @@ func resolveMathClamp(t v1.MathTransform, input any) (any, error) {
 	case int64:
 		in = i
 	case float64:
+		// Compare floats as floats: truncating first would let a fractional
+		// excess (e.g. 1.5 clamped to a maximum of 1) slip through, and
+		// would wrap for values outside the int64 range.
+		switch t.GetType() { //nolint:exhaustive // We validate the type in ResolveMath
+		case v1.MathTransformTypeClampMin:
+			if i < float64(*t.ClampMin) {
+				return *t.ClampMin, nil
+			}
+			return input, nil
+		case v1.MathTransformTypeClampMax:
+			if i > float64(*t.ClampMax) {
+				return *t.ClampMax, nil
+			}
+			return input, nil
+		}
 		in = int64(i)
 	default:
 		// should never happen as we validate the input type in ResolveMath
